@@ -8,6 +8,7 @@ import (
 	"strings"
 
 	"rocheck/internal/check"
+	"rocheck/internal/load"
 	"rocheck/internal/model"
 )
 
@@ -204,3 +205,94 @@ func verifControlGlobalWrite(key string, value int) {
 	verifControlGlobalMemo.Store(key, value)
 }
 `
+
+// BRACKET-PLACEMENT: which side of the user's chain each collector metric is wired to.
+func ruleBracketPlacement() check.Rule {
+	return check.Rule{
+		Name: "BRACKET-PLACEMENT",
+		Doc:  "in wrapPipeWithObservability the user's operator chain is one argument of a ro.PipeOpN call; the collector fields that describe what enters the chain (NotificationsInTotal, NotificationLagSeconds) are handed to stages placed before it (source side), the fields that describe what the subscriber sees (NotificationsOutTotal, SubscriptionsTotal) to stages placed after it (subscriber side): a subscription counter on the source side counts the subscriptions the chain makes to its source (3 under RepeatWith(3), 0 under Take(0)) instead of one per Subscribe, an output counter on the source side counts what was received instead of what was delivered",
+		Run: func(c *check.Ctx) {
+			p := c.Prog.ByPath[PromPkg]
+			if p == nil {
+				return
+			}
+			info := p.TypesInfo
+			fd := load.FuncDeclOf(p, "wrapPipeWithObservability")
+			key := "ee/plugins/prometheus.wrapPipeWithObservability/brackets"
+			if fd == nil || fd.Body == nil {
+				c.Undecided(key, p.Syntax[0].Pos(), "anchor wrapPipeWithObservability not found")
+				return
+			}
+			// the parameter that is the user's chain: a function-typed parameter
+			var chain types.Object
+			for _, f := range fd.Type.Params.List {
+				for _, id := range f.Names {
+					if v, ok := info.Defs[id].(*types.Var); ok {
+						if _, isSig := v.Type().Underlying().(*types.Signature); isSig {
+							chain = v
+						}
+					}
+				}
+			}
+			var pipe *ast.CallExpr
+			chainIdx := -1
+			ast.Inspect(fd.Body, func(x ast.Node) bool {
+				call, ok := x.(*ast.CallExpr)
+				if !ok || pipe != nil {
+					return true
+				}
+				for i, a := range call.Args {
+					if id, ok := ast.Unparen(a).(*ast.Ident); ok && chain != nil && objOf(info, id) == chain {
+						pipe, chainIdx = call, i
+					}
+				}
+				return true
+			})
+			if pipe == nil {
+				c.Undecided(key, fd.Pos(), "the call that composes the user's chain with the instrumentation stages was not found")
+				return
+			}
+			side := map[string]string{"NotificationsInTotal": "before", "NotificationLagSeconds": "before", "NotificationsOutTotal": "after", "SubscriptionsTotal": "after"}
+			seen := map[string]bool{}
+			bad := false
+			for i, a := range pipe.Args {
+				if i == chainIdx {
+					continue
+				}
+				where := "before"
+				if i > chainIdx {
+					where = "after"
+				}
+				ast.Inspect(a, func(y ast.Node) bool {
+					sel, ok := y.(*ast.SelectorExpr)
+					if !ok {
+						return true
+					}
+					if s, ok := info.Selections[sel]; !ok || s.Kind() != types.FieldVal {
+						return true
+					}
+					want, known := side[sel.Sel.Name]
+					if !known {
+						return true
+					}
+					seen[sel.Sel.Name] = true
+					if want != where {
+						bad = true
+						c.Violation(key+"/"+sel.Sel.Name, sel.Pos(), "collector.%s is wired to a stage placed %s the user's chain; it describes the %s side", sel.Sel.Name, where, map[string]string{"before": "source", "after": "subscriber"}[want])
+					}
+					return true
+				})
+			}
+			for name := range side {
+				if !seen[name] {
+					bad = true
+					c.Violation(key+"/"+name, pipe.Pos(), "collector.%s is not wired to any stage around the user's chain", name)
+				}
+			}
+			c.Inc("bracket_metrics", len(seen))
+			if !bad {
+				c.OK(key, pipe.Pos(), "input metrics on the source side, output and subscription metrics on the subscriber side of the user's chain")
+			}
+		},
+	}
+}
